@@ -260,6 +260,12 @@ var c04Corpus = []c04Pinned{
 	{name: "jsonschema-empty-definition-name", format: "jsonschema", text: `{"$schema":"http://json-schema.org/draft-07/schema#","definitions":{"":{"type":"object","properties":{"a":{"type":"string"}}}},"type":"object","properties":{"e":{"$ref":"#/definitions/"}}}`},
 	{name: "jsonschema-variant-on-ref-root", format: "jsonschema", text: `{"$schema":"http://json-schema.org/draft-07/schema#","$ref":"#/definitions/A","definitions":{"A":{"$ref":"#/definitions/B"},"B":{"type":"string"}}}`},
 	{name: "cue-self-alias", format: "cue", text: "#A: #A\nb: #A\n"},
+	{name: "cue-recursive-array", format: "cue", langs: []string{"go"}, text: "container: {\n    m: {[string]: #A}\n    n: int\n}\n\n#A: [...#A]\n"},
+	{name: "openapi-self-anyof-validated", format: "openapi", validate: true, text: c04OA + `{"Array":{"type":"array","items":{"type":"string"},"default":["anything"],"discriminator":{"propertyName":"type"},"anyOf":[{"type":"string"},{"$ref":"#/components/schemas/Array"},{"type":"array","items":{"type":"integer"}}]}}}}`},
+	{name: "openapi-empty-enum", format: "openapi", text: c04OA + `{"E":{"type":"string","enum":[]},"S":{"type":"object","properties":{"e":{"$ref":"#/components/schemas/E"}}}}}}`},
+	{name: "openapi-empty-oneof", format: "openapi", text: c04OA + `{"U":{"oneOf":[]},"S":{"type":"object","properties":{"u":{"$ref":"#/components/schemas/U"}}}}}}`},
+	{name: "jsonschema-recursive-union", format: "jsonschema", text: `{"$schema":"http://json-schema.org/draft-07/schema#","definitions":{"X":{"oneOf":[{"$ref":"#/definitions/X"},{"type":"string","const":"a"}]}},"type":"object","properties":{"x":{"$ref":"#/definitions/X"}}}`},
+	{name: "jsonschema-null-null", format: "jsonschema", text: `{"$schema":"http://json-schema.org/draft-07/schema#","type":"object","properties":{"n":{"oneOf":[{"type":"null"},{"type":"null"}]}}}`},
 	{name: "cue-empty", format: "cue", text: ""},
 	{name: "cue-enum-attr-no-members", format: "cue", text: "E: \"a\" | \"b\" @cuetsy(kind=\"enum\",memberNames=\"x\")\n"},
 	{name: "cue-int-enum-no-names", format: "cue", text: "E: 1 | 2 @cuetsy(kind=\"enum\")\n"},
